@@ -14,7 +14,7 @@ import (
 func init() {
 	register(&Spec{ID: "C15", Title: "The packet queue behaves as a byte FIFO across packet boundaries", Run: runC15,
 		Meta: core.Meta{
-			Explanation: "R15.16: tds.ErrNotEnoughBytes is errors.New(...) and PacketQueue.Read returns the error value of its Bytes call itself. R15.2 also covers String: it returns string(bs) of the very slice Bytes(n) returned for the requested n. R15.15 = R01.9 (PacketQueue.packetSize is stored only by NewPacketQueue and is its parameter itself, not a wrapper that clamps or rounds the size). Clauses of the FIFO property whose truth is in the shape of the code; the step-by-step equality with a flat byte model is not decided. R15.1 (io.Reader / io.Writer clause): in every method of the module with the io.Reader signature the caller's slice is written (operand of copy, of an element store, or handed to a callee that does); PacketQueue.Write hands its slice to WriteBytes. R15.2 (typed read/write sibling table): UintK = Bytes(K/8) + endian.UintK, WriteUintK = make([]byte, K/8) + endian.PutUintK + WriteBytes, IntK/WriteIntK delegate to the unsigned sibling of the same width through a conversion, Byte/WriteByte use one byte, String/WriteString delegate to Bytes/WriteBytes; the package-level `endian` is assigned nowhere after its initialiser. R15.3: Bytes returns only nil/ErrNotEnoughBytes and succeeds only when n bytes were copied (C07 R07.2). R15.4: Reset assigns all four state fields. R15.5: AllPacketsConsumed's answer always depends on the packet index having reached the end of the queue: every non-false answer is a comparison of indexPacket with len(queue), or is computed under such a comparison. R15.6: the live packet size (packetSize()) only sizes NEW packets; free space in the packet being filled is computed from that packet's own header length/body (a size change while a packet is partly filled must not change its capacity). R15.7: DiscardUntilCurrentPosition evaluates its end-of-packet test after the queue was shifted and indexPacket reset, on queue[indexPacket] (the packet under the position). The test includes equality (indexData >= len or == len): a packet consumed exactly to its end is dropped. R15.11: every error return of Bytes lies on the true edge of AllPacketsConsumed() — an empty or exhausted packet in front of further data is stepped over, not reported as the end. R15.14 (E-OWN): none of the typed readers/writers accesses queue, indexPacket or indexData itself. R15.13: every NewPacket call of WriteBytes is guarded by a comparison of indexPacket with len(queue) or by `free bytes == 0` computed from the current packet's own Header.Length. R15.12 (E-OWN): every store to Packet.Data in the module assigns nil, a slice allocated by make in the same function, or a slice of the same packet's Data; storing (a slice of) a caller's buffer would make later reads return whatever the caller writes into it afterwards. R15.8: AddPacket changes nothing but recvEOM and queue = append(queue, packet). R15.10: SetPosition stores both of its parameters into indexPacket/indexData on every path (a position obtained from Position() is always a valid position, including the one just behind the last packet). R15.1 also requires that Read asks Bytes for exactly len(p) bytes of its parameter and copies into that parameter. R15.9 = R02.6 (read results are fresh buffers).",
+			Explanation: "R15.19 = R14.24. R15.18: the computed answer of AllPacketsConsumed that looks at indexData is given under an equality test of indexPacket against an expression of len(queue) (R15.5 only asks for some comparison). R15.17: PacketQueue.WriteBytes contains exactly one call of the builtin copy. R15.16: tds.ErrNotEnoughBytes is errors.New(...) and PacketQueue.Read returns the error value of its Bytes call itself. R15.2 also covers String: it returns string(bs) of the very slice Bytes(n) returned for the requested n. R15.15 = R01.9 (PacketQueue.packetSize is stored only by NewPacketQueue and is its parameter itself, not a wrapper that clamps or rounds the size). Clauses of the FIFO property whose truth is in the shape of the code; the step-by-step equality with a flat byte model is not decided. R15.1 (io.Reader / io.Writer clause): in every method of the module with the io.Reader signature the caller's slice is written (operand of copy, of an element store, or handed to a callee that does); PacketQueue.Write hands its slice to WriteBytes. R15.2 (typed read/write sibling table): UintK = Bytes(K/8) + endian.UintK, WriteUintK = make([]byte, K/8) + endian.PutUintK + WriteBytes, IntK/WriteIntK delegate to the unsigned sibling of the same width through a conversion, Byte/WriteByte use one byte, String/WriteString delegate to Bytes/WriteBytes; the package-level `endian` is assigned nowhere after its initialiser. R15.3: Bytes returns only nil/ErrNotEnoughBytes and succeeds only when n bytes were copied (C07 R07.2). R15.4: Reset assigns all four state fields. R15.5: AllPacketsConsumed's answer always depends on the packet index having reached the end of the queue: every non-false answer is a comparison of indexPacket with len(queue), or is computed under such a comparison. R15.6: the live packet size (packetSize()) only sizes NEW packets; free space in the packet being filled is computed from that packet's own header length/body (a size change while a packet is partly filled must not change its capacity). R15.7: DiscardUntilCurrentPosition evaluates its end-of-packet test after the queue was shifted and indexPacket reset, on queue[indexPacket] (the packet under the position). The test includes equality (indexData >= len or == len): a packet consumed exactly to its end is dropped. R15.11: every error return of Bytes lies on the true edge of AllPacketsConsumed() — an empty or exhausted packet in front of further data is stepped over, not reported as the end. R15.14 (E-OWN): none of the typed readers/writers accesses queue, indexPacket or indexData itself. R15.13: every NewPacket call of WriteBytes is guarded by a comparison of indexPacket with len(queue) or by `free bytes == 0` computed from the current packet's own Header.Length. R15.12 (E-OWN): every store to Packet.Data in the module assigns nil, a slice allocated by make in the same function, or a slice of the same packet's Data; storing (a slice of) a caller's buffer would make later reads return whatever the caller writes into it afterwards. R15.8: AddPacket changes nothing but recvEOM and queue = append(queue, packet). R15.10: SetPosition stores both of its parameters into indexPacket/indexData on every path (a position obtained from Position() is always a valid position, including the one just behind the last packet). R15.1 also requires that Read asks Bytes for exactly len(p) bytes of its parameter and copies into that parameter. R15.9 = R02.6 (read results are fresh buffers).",
 			NotDecided:  "Copy arithmetic across packets, discard, fill order and position save/restore semantics are not decided.",
 			Assumptions: []string{"encoding/binary ByteOrder semantics"},
 		}})
@@ -25,7 +25,7 @@ func runC15(r *core.Run) {
 	ef := newErrFlow(p)
 	r.Rule("R15.1", "Read fills / Write consumes the caller's buffer", 2, true)
 	r.Rule("R15.2", "typed readers and writers are width-consistent siblings over one byte order", 21, false)
-	r.Rule("R15.3", "Bytes: nil/ErrNotEnoughBytes only; success only with n bytes", 3, false)
+	r.Rule("R15.3", "Bytes: nil/ErrNotEnoughBytes only; success only with n bytes", 2, false)
 	r.Rule("R15.4", "Reset restores the whole state", 1, false)
 	r.Rule("R15.5", "AllPacketsConsumed depends on the packet index reaching the end of the queue", 1, false)
 	r.Rule("R15.7", "DiscardUntilCurrentPosition drops the packet under the position only, after the shift", 1, false)
@@ -39,10 +39,16 @@ func runC15(r *core.Run) {
 	r.Rule("R15.6", "the live packet size only sizes new packets", 1, true)
 	r.Rule("R15.15", "written data is laid out in packets of the caller's packet size: NewPacketQueue stores the size function it is given (R01.9)", 4, false)
 	defer c01OneSize(r, "R15.15")
-	defer c15StringIsBytes(r)
+	defer c15StringIsBytes(r, "R15.2")
 	r.Rule("R15.16", "not-enough-bytes is a plain sentinel and Read hands on the error of Bytes", 2, false)
 	defer sentinelsArePlain(r, "R15.16", "ErrNotEnoughBytes")
 	defer c15ReadHandsOn(r)
+	r.Rule("R15.17", "WriteBytes copies the caller's bytes into packets in one place", 1, false)
+	defer oneCopySite(r, "R15.17")
+	r.Rule("R15.18", "AllPacketsConsumed tests indexData only for the last packet", 1, false)
+	defer consumedLooksAtBoth(r, "R15.18")
+	r.Rule("R15.19", "reading nothing succeeds everywhere (R14.24)", 1, false)
+	defer zeroBytesSucceed(r, "R15.19")
 
 	// R15.1: every module method with signature Read([]byte) (int, error)
 	for _, fn := range p.ModuleFuncs() {
@@ -363,6 +369,10 @@ func c15Consumed(r *core.Run) {
 			good := false
 			for _, g := range core.GuardsOf(blk) {
 				if relatesIndexToEnd(g.Cond) && g.Pol {
+					good = true
+				}
+				// the early-return form: `if indexPacket != len(queue)-1 { return false }`
+				if bo, isBo := g.Cond.(*ssa.BinOp); isBo && bo.Op == token.NEQ && !g.Pol && relatesIndexToEnd(g.Cond) {
 					good = true
 				}
 			}
